@@ -11,5 +11,39 @@ ASSUMPTIONS = [
 ]
 
 
+def cross_process(ctx, thorough, search):
+    """the same inputs emitted by several separate PROCESSES (std's HashMap seeds differ per process): byte-identical output"""
+    import os, shutil
+    from .. import core
+    out = os.path.join(ctx.work, "xproc" + ("_search" if search else ""))
+    shutil.rmtree(out, ignore_errors=True); os.makedirs(out)
+    inp = os.path.join(out, "inputs")
+    rc, o, dt = core.sh([core.vh(), "c09gen", inp, str(ctx.seed + (88 if search else 0)), str(100 if thorough else 8)], timeout=1200)
+    if rc != 0:
+        return [{"class": "harness", "what": "input generation failed: " + o[-300:], "input": None}], {}
+    runs = 5 if thorough else 3
+    files = []
+    for k in range(runs):
+        f = os.path.join(out, "run%d.txt" % k)
+        rc, o, dt = core.sh([core.vh(), "c09run", inp, f], timeout=2400)
+        if rc != 0:
+            return [{"class": "harness", "what": "run %d failed: %s" % (k, o[-300:]), "input": None}], {}
+        files.append(open(f).read().splitlines())
+    names = dict(l.split(" ", 1) for l in open(os.path.join(inp, "index.txt")).read().splitlines())
+    ov = []
+    for k in range(1, runs):
+        for a, b in zip(files[0], files[k]):
+            if a != b:
+                iid = a.split(" ")[0]
+                ov.append({"class": "output-differs-across-processes", "what": "%s: process 0 `%s` vs process %d `%s`" % (names.get(iid, iid), a[:120], k, b[:120]),
+                           "input": {"module_hex": open(os.path.join(inp, iid + ".wasm"), "rb").read().hex()}, "replay_cmd": "parse + emit_wasm the module in two separate processes and compare the bytes"})
+                break
+    return ov, {"processes": runs, "lines_per_process": len(files[0])}
+
+
 def correspondence(ctx, thorough, search):
-    return run_mod(ctx, thorough, search, "C08")
+    r = run_mod(ctx, thorough, search, "C08")
+    ov, cov = cross_process(ctx, thorough, search)
+    r["oracle_violations"] += ov
+    r.setdefault("coverage", {})["cross_process"] = cov
+    return r
